@@ -26,7 +26,10 @@ pub fn addr_of(id: u8) -> SocketAddr {
 
 pub struct NodeH {
     pub id: u8,
+    /// the address the node advertises to its peers
     pub addr: SocketAddr,
+    /// the address its RPC server listens on (differs from `addr` when `set_listen_elsewhere` is on)
+    pub listen: SocketAddr,
     pub dc: String,
     pub node: DatacakeNode,
     pub store: ModelStore,
@@ -44,6 +47,22 @@ pub struct Second {
 
 thread_local! {
     static SECOND_STORE: std::cell::Cell<u8> = const { std::cell::Cell::new(0) };
+    static LISTEN_ELSEWHERE: std::cell::Cell<bool> = const { std::cell::Cell::new(false) };
+}
+
+/// While on, every node started binds `192.168.<id>.1:9000` and advertises `10.0.0.<id>:7000` (the documented
+/// "listen on one address, be reachable under another" configuration); the in-process transport routes the public
+/// address to the listening server. Reset by `sim` at the end of a case.
+pub fn set_listen_elsewhere(on: bool) {
+    LISTEN_ELSEWHERE.with(|c| c.set(on));
+}
+
+pub fn listen_addr_of(id: u8) -> SocketAddr {
+    if LISTEN_ELSEWHERE.with(|c| c.get()) {
+        ([192, 168, id, 1], 9000).into()
+    } else {
+        addr_of(id)
+    }
 }
 
 /// 0 = nodes host one store extension; 1 = every node started from now on also hosts a second extension (storage
@@ -152,7 +171,11 @@ pub fn members_of(nodes: &[(u8, String)]) -> Vec<ClusterMember> {
 pub async fn start_node(id: u8, dc: &str, store: ModelStore, members: &[ClusterMember], repair: Duration) -> NodeH {
     let t_begin = tokio::time::Instant::now();
     let addr = addr_of(id);
-    let cfg = ConnectionConfig::new(addr, addr, Vec::<String>::new());
+    let listen = listen_addr_of(id);
+    if listen != addr {
+        datacake_rpc::verif::alias(addr, listen);
+    }
+    let cfg = ConnectionConfig::new(listen, addr, Vec::<String>::new());
     let node = DatacakeNodeBuilder::<DCAwareSelector>::new(id, cfg)
         .with_data_center(dc)
         .connect()
@@ -183,7 +206,7 @@ pub async fn start_node(id: u8, dc: &str, store: ModelStore, members: &[ClusterM
         eprintln!("DEBUG start_node {id}: extension ready after {:?}", t_dbg.elapsed());
     }
     let handle = ec.handle();
-    NodeH { id, addr, dc: dc.to_string(), node, store, ec, handle, second }
+    NodeH { id, addr, listen, dc: dc.to_string(), node, store, ec, handle, second }
 }
 
 async fn start_second(node: &DatacakeNode, repair: Duration) -> Second {
@@ -213,7 +236,7 @@ pub async fn start_cluster(layout: &Layout) -> Vec<NodeH> {
 
 /// Stops a node the hard way (process death): its server disappears, its storage handle is fenced.
 pub async fn kill_node(n: NodeH) -> (u8, String, ModelStore) {
-    datacake_rpc::verif::unregister(n.addr);
+    datacake_rpc::verif::unregister(n.listen);
     let NodeH { id, dc, node, store, ec, handle, .. } = n;
     drop(handle);
     drop(ec);
@@ -257,6 +280,7 @@ where
     });
     datacake_rpc::verif::enable(false);
     set_second_store(0);
+    set_listen_elsewhere(false);
     datacake_node::verif::set_rng_seed(None);
     datacake_crdt::verif::set_wall(None);
     drop(rt);
